@@ -283,7 +283,7 @@ impl King {
                         .iter()
                         .all(|dest| board.is_legal_king_position(dest))
                     {
-                        moves ^= castle_tiles & chess_lookup::CASTLE_MOVES
+                        moves ^= castle_tiles & chess_lookup::CASTLE_MOVES & mask
                     }
                 }
             }
